@@ -2601,7 +2601,7 @@ func TestVerifC03(t *testing.T) {
 	// a run takes ~30 ms; a seeded non-atomic check-and-add shows in roughly one run out of eight
 	nsamp, ssteps := 120, 200
 	if verifh.Tier() == "thorough" {
-		nsamp, ssteps = 1500, 300
+		nsamp, ssteps = 600, 300
 	}
 	for i := 0; i < nsamp; i++ {
 		c03Sampled(t, out, rd.Fork(), 8, ssteps)
